@@ -491,13 +491,36 @@ def alias_map(fnode):
         return {}
     out = {}
 
+    # names stored anywhere in the function, with the line of the last store; nodes that lie inside a loop
+    last_store = {}
+    in_loop = set()
+    for n_ in ast.walk(fnode):
+        if isinstance(n_, ast.Name) and isinstance(n_.ctx, (ast.Store, ast.Del)):
+            last_store[n_.id] = max(last_store.get(n_.id, 0), n_.lineno)
+        if isinstance(n_, (ast.For, ast.While)):
+            for b_ in n_.body + n_.orelse:
+                for x_ in ast.walk(b_):
+                    in_loop.add(id(x_))
+
+    def stable_index(sl, at):
+        """an index expression over locals and constants none of which is assigned again after line `at`"""
+        if isinstance(sl, (ast.Constant,)):
+            return True
+        if isinstance(sl, ast.UnaryOp):
+            return stable_index(sl.operand, at)
+        if isinstance(sl, ast.BinOp) and isinstance(sl.op, (ast.Add, ast.Sub)):
+            return stable_index(sl.left, at) and stable_index(sl.right, at)
+        if isinstance(sl, ast.Name):
+            return last_store.get(sl.id, 0) < at and id(sl) not in in_loop
+        return False
+
     def pure(e):
         if isinstance(e, ast.Name):
             return True
         if isinstance(e, ast.Attribute):
             return pure(e.value)
         if isinstance(e, ast.Subscript):
-            return pure(e.value) and isinstance(e.slice, (ast.Constant, ast.UnaryOp))
+            return pure(e.value) and (isinstance(e.slice, (ast.Constant, ast.UnaryOp)) or stable_index(e.slice, getattr(e, 'lineno', 0)))
         return False
     for name, defs in local_defs(fnode).items():
         if len(defs) == 1 and isinstance(defs[0], ast.AST) and isinstance(defs[0], (ast.Attribute, ast.Subscript)) and pure(defs[0]):
